@@ -25,6 +25,73 @@ def calls_of(ps):
     return [p for p in ps if p["kind"] == "call" and not p["eff"].get("noreturn")]
 
 
+def blind_rotate_by_unrolling(v, h, suffix):
+    """Fallback when the rotation is not one CMux call in one counted loop (e.g. the non-zero exponents are consumed two at a time
+    by scanning loops): the function is interpreted for n in 0..4 and EVERY zero / non-zero pattern of bara[0..n) -- with n and
+    the pattern fixed every loop test is decided, so the executor unrolls the loops -- and the sequence of calls must be: for
+    each non-zero position in increasing order one CMux(other buffer <- buffer holding the value, bk+i, bara[i]), and the value
+    must end in accum (copied back exactly when it is in the scratch sample).  -> (True, detail) | (False, witness) | (None, reason)"""
+    import itertools
+    from sa.symexec import run_function, flat, Hooks
+    hacc, hbk, hbara, hn, hpar = [p["n"] for p in h.params]
+    ACC, BK, BARA = sym.sym(hacc), sym.sym(hbk), sym.sym(hbara)
+    muxname = "tfhe_MuxRotate" + suffix
+    n_runs = 0
+    for nv in range(0, 5):
+        for pattern in itertools.product((False, True), repeat=nv):          # True = non-zero exponent
+            class H(Hooks):
+                def want_inline(self, ex, callee, node):
+                    return NOINLINE.want_inline(ex, callee, node)
+
+                def decide(self, ex, cond):
+                    c_ = sym.const_value(cond)
+                    if c_ is not None:
+                        return bool(c_)
+                    if cond[0] == "op" and cond[1] in ("==", "!=") and ZERO in (cond[2], cond[3]):
+                        x_ = cond[3] if cond[2] == ZERO else cond[2]
+                        if x_[0] == "idx" and x_[1] == BARA and sym.const_value(x_[2]) is not None and 0 <= sym.const_value(x_[2]) < nv:
+                            nz = pattern[sym.const_value(x_[2])]
+                            return nz if cond[1] == "!=" else not nz
+                    if cond[0] == "op" and cond[1] in ("&&", "||"):
+                        a_, b_ = self.decide(ex, cond[2]), self.decide(ex, cond[3])
+                        if a_ is not None and b_ is not None:
+                            return (a_ and b_) if cond[1] == "&&" else (a_ or b_)
+                    return None
+            args = [None, None, None, I(nv), None]
+            eff, st, ex = run_function(v, h, hooks=H(), args=args, concrete={("sym", "$unroll"): 1})
+            calls = []
+            for x in flat(eff):
+                if x["e"] in ("while", "loop", "unknown", "asm"):
+                    return None, "a loop of %s does not unroll for n = %d, pattern %s" % (h.name, nv, pattern)
+                if x["e"] == "if":
+                    return None, "an undecided branch (%s) remains for n = %d" % (sym.show(x["cond"])[:60], nv)
+                if x["e"] == "call" and not x.get("noreturn"):
+                    calls.append(x)
+            n_runs += 1
+            pat = "".join("x" if b_ else "0" for b_ in pattern) or "-"
+            C = ACC
+            want_pos = [i_ for i_, b_ in enumerate(pattern) if b_]
+            muxes = [x for x in calls if x["name"] == muxname]
+            if len(muxes) != len(want_pos):
+                return False, "with n = %d and the zero pattern %s (x = non-zero) %d CMux steps are made, %d exponents are non-zero" % (nv, pat, len(muxes), len(want_pos))
+            for x, i_ in zip(muxes, want_pos):
+                d, s_, row, ex_ = x["args"][:4]
+                if s_ != C:
+                    return False, "with n = %d, pattern %s: the step for i = %d reads %s but the value is in %s" % (nv, pat, i_, sym.show(s_)[:30], sym.show(C)[:30])
+                if d == s_ or (d != ACC and d[0] != "obj"):
+                    return False, "with n = %d, pattern %s: the step for i = %d writes %s while reading %s" % (nv, pat, i_, sym.show(d)[:30], sym.show(s_)[:30])
+                if row != sym.padd(BK, I(i_)) or ex_ != sym.idx(BARA, I(i_)):
+                    return False, "with n = %d, pattern %s: step %d uses key row %s and exponent %s, expected bk+%d, bara[%d]" % (
+                        nv, pat, i_, sym.show(row)[:30], sym.show(ex_)[:30], i_, i_)
+                C = d
+            copies = [x for x in calls if x["name"] == "tLweCopy" and x["args"][0] == ACC]
+            if C != ACC and not (len(copies) == 1 and copies[0]["args"][1] == C and calls.index(copies[0]) > calls.index(muxes[-1])):
+                return False, "with n = %d, pattern %s: the value ends in %s and is not copied back to accum" % (nv, pat, sym.show(C)[:30])
+            if C == ACC and copies:
+                return False, "with n = %d, pattern %s: the value is already in accum but accum is overwritten from %s" % (nv, pat, sym.show(copies[0]["args"][1])[:30])
+    return True, "interpreted for n in 0..4 and all %d zero / non-zero patterns: one CMux(bk+i, bara[i]) per non-zero position in order, reading the buffer that holds the value; value back in accum at the end" % n_runs
+
+
 def check_blind_rotate(chk, v, suffix, rule):
     """Blind rotation as a transition system (sa/loopstate.py): the loop body is interpreted once per reachable value of the
     loop-carried variables (the buffer pointers or the index that selects them) and per control path.  A ghost cell C
@@ -43,7 +110,11 @@ def check_blind_rotate(chk, v, suffix, rule):
     mux_p = [c for c in calls_of(hps) if c["name"] == muxname]
     problems = []
     if any(p["kind"] in ("while", "unknown") for p in hps) or len(mux_p) != 1 or len(mux_p[0]["loops"]) != 1 or "var" not in mux_p[0]["loops"][0]:
-        chk.broken("%s: expected one %s call inside one counted loop" % (h.name, muxname))
+        oku, detu = blind_rotate_by_unrolling(v, h, suffix)
+        if oku is None:
+            chk.broken("%s: expected one %s call inside one counted loop; %s" % (h.name, muxname, detu))
+        chk.require(oku, rule, key, where=h.where, ok=detu, bad=detu, variant=vn)
+        return
     lp = mux_p[0]["loops"][0]
     rng = pam.ascending_range(lp)
     if rng is None:
